@@ -106,6 +106,7 @@ Record hcase := mkH {
   h_before : list key; h_master : N;
   h_cur : N; h_cmd : cmd; h_newid : N;        (* newid: observed id of the saved key file, 0 if none *)
   h_cut : bool;                               (* run with the backend cut / a failing operation *)
+  h_vok : bool;                               (* the verification read of the new key was not made to fail *)
   h_trace : list kop;                         (* successful Save/Remove of key files, in order *)
   h_keys_after : list N;                      (* key files afterwards *)
   h_opens_after : list (N * bool);            (* for each pool password: does it open (<= maxKeys keys) *)
@@ -167,7 +168,7 @@ Fixpoint is_prefix_of (p l : list kop) : bool :=
   end.
 
 Definition h_model_agrees (c : hcase) : bool :=
-  let nominal := cmd_ops (h_cur c) (h_newid c) true (h_cmd c) in
+  let nominal := cmd_ops (h_cur c) (h_newid c) (h_vok c) (h_cmd c) in
   if h_cut c then is_prefix_of (h_trace c) nominal
   else list_eqb kop_eqb (h_trace c) nominal.
 
